@@ -43,6 +43,19 @@ pub fn programs() -> Vec<(&'static str, &'static str, Vec<(&'static str, &'stati
         ),
         ("selector-fns", "a { b: selector-extend(\".a .b\", \".b\", \".c .d\"); c: selector-unify(\".a.e\", \".f\"); d: is-superselector(\".a\", \".a.b\"); } .z:not(.a) { x: y; } .w { @extend .a; }", vec![]),
         ("error-arglist", "@mixin m($a) { b: $a; } a { @include m(1, $zebra: 2, $apple: 3); }", vec![]),
+        // members of a module that are shadowed and removed by an @import-ed file's forwards
+        (
+            "import-forward-shadow",
+            "@use \"sass:meta\"; @use \"lib\"; a { v: inspect(meta.module-variables(\"lib\")); f: inspect(meta.module-functions(\"lib\")); }",
+            vec![
+                ("_lib.scss", "$first: 1; $a: local; $b: local; $c: local; $d: local; $second: 2; $third: 3; $fourth: 4; $fifth: 5; @function fn-first() {@return 1} @function fa() {@return local} @function fb() {@return local} @function fc() {@return local} @function fn-second() {@return 2} @function fn-third() {@return 3} @function fn-fourth() {@return 4} @import \"legacy\";"),
+                ("_legacy.scss", "@forward \"theme\";"),
+                ("_theme.scss", "$a: theme; $b: theme; $c: theme; $d: theme; @function fa() {@return theme} @function fb() {@return theme} @function fc() {@return theme}"),
+            ],
+        ),
+        // a built-in module's variable written through a forwarding module, then read by another compilation
+        ("forward-builtin-assign", "@use \"mid\"; mid.$pi: 3; a { b: mid.$pi; c: mid.floor(2.5); }", vec![("_mid.scss", "@forward \"sass:math\";")]),
+        ("builtin-var-read", "@use \"sass:math\"; a { pi: math.$pi; e: math.$e; c: math.$pi * 2; }", vec![]),
         // the same source and files under two option sets (the text after `@` in the name is the load path)
         ("theme@themes/light", "@import \"theme\"; a { b: $t; }", vec![("themes/light/_theme.scss", "$t: light;"), ("themes/dark/_theme.scss", "$t: dark;")]),
         ("theme@themes/dark", "@import \"theme\"; a { b: $t; }", vec![("themes/light/_theme.scss", "$t: light;"), ("themes/dark/_theme.scss", "$t: dark;")]),
